@@ -251,8 +251,8 @@ func funcInfoOf(name string) funcInfo {
 //@   ensures[C05,C16] inv-kept: routeOK(c) && forsFresh(c) && endsFresh(c)
 //
 //@ func (*converter).Break
-//@   requires[C13,C16] inv: len(c.endLabels) > 0
-//@   ensures[C05,C16] leaves-innermost-loop: appended(specBlock(c), old(specBlockBefore(c)), "goto " + c.endLabels[len(c.endLabels) - 1]) && result == nil && routeOK(c)
+//@   ensures[C05,C16] leaves-innermost-loop: len(old(c.endLabels)) > 0 ==> appended(specBlock(c), old(specBlockBefore(c)), "goto " + c.endLabels[len(c.endLabels) - 1]) && result == nil && routeOK(c)
+//@   ensures[C13,C16] no-open-loop-is-an-error-not-a-jump: len(old(c.endLabels)) == 0 ==> result != nil && sameExcept(c, old(c))
 //
 //@ func (*converter).Continue
 //@   requires[C13,C16] inv: len(c.fors) > 0
